@@ -878,10 +878,24 @@ class CallMixin(object):
                     return NotImplemented
             if not kwargs and recv.value.count('{}') == len(args) and \
                     recv.value.count('{') == len(args):
-                return Fmt(recv.value.replace('%', '%%').replace('{}', '%s'), tuple(args))
+                return self.fold_fmt(recv.value.replace('%', '%%').replace('{}', '%s'),
+                                     tuple(args))
             return NotImplemented
         if name == 'join' and len(args) == 1:
             lst = self.materialise(args[0], node)
+            if isinstance(lst, ListObj) and not lst.open and lst.items and \
+                    isinstance(recv.value, str):
+                # sep.join of a statically known sequence of constants / formats
+                tmpl, fargs, ok = '', (), True
+                for i, it in enumerate(lst.items):
+                    t, a = self.as_fmt(it)
+                    if t is None:
+                        ok = False
+                        break
+                    tmpl += (recv.value.replace('%', '%%') if i else '') + t
+                    fargs += tuple(a)
+                if ok:
+                    return self.fold_fmt(tmpl, fargs)
             return MCall(recv, 'join', (lst,), (), None)
         if all(isinstance(a, Const) for a in args) and not kwargs and \
                 name in ('lower', 'upper', 'strip', 'rstrip', 'lstrip', 'startswith',
